@@ -78,6 +78,9 @@ pub struct PidModel {
     cached: Exp,
 }
 impl PidModel {
+    pub fn with(kp: f32, ki: f32, kd: f32, sp: f32) -> Self {
+        PidModel { kp, ki, kd, sp, prev: None, terms: Vec::new(), poison: false, cached: Exp::None }
+    }
     pub fn new(plan: &Plan) -> Self {
         PidModel {
             kp: plan.getf("kp"),
@@ -308,6 +311,8 @@ impl CpidModel {
 pub struct EwmaModel {
     s: f32,
     quantity: bool,
+    /// outside the property's domain (timestamp went backwards, non-finite sample) until the next error reset
+    poison: bool,
     /// cached category: 0 none, 1 err, 2 some
     pub cached: Exp,
     prev: Option<(i64, Approx)>,
@@ -317,10 +322,14 @@ pub struct EwmaModel {
     pub unit: (i8, i8),
 }
 impl EwmaModel {
+    pub fn with(s: f32, quantity: bool) -> Self {
+        EwmaModel { s, quantity, poison: false, cached: Exp::None, prev: None, lo: 0.0, hi: 0.0, first: false, unit: (0, 0) }
+    }
     pub fn new(plan: &Plan, quantity: bool) -> Self {
         EwmaModel {
             s: plan.getf("smoothing"),
             quantity,
+            poison: false,
             cached: Exp::None,
             prev: None,
             lo: 0.0,
@@ -343,6 +352,7 @@ impl EwmaModel {
         match input {
             Out::Err(e) => {
                 self.prev = None;
+                self.poison = false;
                 self.cached = Exp::Err(*e);
                 Step { out: self.cached.clone(), ret: None, reset: true, class: 1 }
             }
@@ -356,6 +366,14 @@ impl EwmaModel {
             Out::Some(..) => {
                 let (t, x) = fval(input).unwrap();
                 self.unit = qunit(input);
+                if !x.is_finite() || self.prev.map(|(tp, _)| t < tp).unwrap_or(false) {
+                    self.poison = true;
+                }
+                if self.poison {
+                    self.prev = Some((t, ex(if x.is_finite() { x } else { 0.0 })));
+                    self.cached = Exp::Some(t, self.wrap(Num::Unchecked));
+                    return Step { out: self.cached.clone(), ret: None, reset: false, class: 4 };
+                }
                 match self.prev {
                     None => {
                         self.first = true;
